@@ -913,18 +913,39 @@ class RTCSctpTransport(AsyncIOEventEmitter):
         chunk_pos = self._sent_queue.index(chunk)
         for pos in range(chunk_pos, -1, -1):
             ochunk = self._sent_queue[pos]
-            ochunk._abandoned = True
-            ochunk._retransmit = False
+            self._abandon_chunk(ochunk)
             if ochunk.flags & SCTP_DATA_FIRST_FRAG:
                 break
         for pos in range(chunk_pos, len(self._sent_queue)):
             ochunk = self._sent_queue[pos]
-            ochunk._abandoned = True
-            ochunk._retransmit = False
+            self._abandon_chunk(ochunk)
             if ochunk.flags & SCTP_DATA_LAST_FRAG:
                 break
+        else:
+            # the remaining fragments have not been sent yet, they must not
+            # be sent later : abandon them too so that FORWARD-TSN skips them
+            while self._outbound_queue:
+                ochunk = self._outbound_queue.popleft()
+                self._abandon_chunk(ochunk)
+                self._sent_queue.append(ochunk)
+                if ochunk.flags & SCTP_DATA_LAST_FRAG:
+                    break
 
         return True
+
+    def _abandon_chunk(self, chunk: DataChunk) -> None:
+        """
+        Mark a chunk as abandoned, it no longer counts towards the flight size.
+        """
+        if (
+            not chunk._abandoned
+            and not chunk._acked
+            and not chunk._retransmit
+            and chunk._sent_count
+        ):
+            self._flight_size_decrease(chunk)
+        chunk._abandoned = True
+        chunk._retransmit = False
 
     def _sorted_misordered(self) -> list[int]:
         """
@@ -1213,8 +1234,8 @@ class RTCSctpTransport(AsyncIOEventEmitter):
             done += 1
             if not schunk._acked:
                 done_bytes += schunk._book_size
-                # a chunk marked for retransmission is not in flight
-                if not schunk._retransmit:
+                # a chunk marked for retransmission or abandoned is not in flight
+                if not schunk._retransmit and not schunk._abandoned:
                     self._flight_size_decrease(schunk)
 
             # update RTO estimate
@@ -1249,25 +1270,29 @@ class RTCSctpTransport(AsyncIOEventEmitter):
                     if schunk._retransmit:
                         # not in flight, and no longer in need of retransmission
                         schunk._retransmit = False
-                    else:
+                    elif not schunk._abandoned:
                         self._flight_size_decrease(schunk)
                     highest_newly_acked = schunk.tsn
 
             # strike missing chunks prior to HTNA
-            for schunk in self._sent_queue:
+            for schunk in list(self._sent_queue):
                 if uint32_gt(schunk.tsn, highest_newly_acked):
                     break
                 if schunk.tsn not in seen:
                     schunk._misses += 1
                     if schunk._misses == 3:
                         schunk._misses = 0
-                        in_flight = not schunk._acked and not schunk._retransmit
+                        in_flight = (
+                            not schunk._acked
+                            and not schunk._retransmit
+                            and not schunk._abandoned
+                        )
                         if not self._maybe_abandon(schunk):
                             schunk._retransmit = True
+                            if in_flight:
+                                self._flight_size_decrease(schunk)
 
                         schunk._acked = False
-                        if in_flight:
-                            self._flight_size_decrease(schunk)
 
                         loss = True
 
@@ -1561,7 +1586,7 @@ class RTCSctpTransport(AsyncIOEventEmitter):
         self.__log_debug("x T3 expired")
 
         # mark retransmit or abandoned chunks
-        for chunk in self._sent_queue:
+        for chunk in list(self._sent_queue):
             if not self._maybe_abandon(chunk):
                 chunk._retransmit = True
                 # forget gap acknowledgements, the flight size restarts from zero
